@@ -148,10 +148,6 @@ def kind (c : Cfg) (op : Op) (_a b : Nat) : ExcKind :=
   | .div => if isZero c b then .cfloat_divide_by_zero else if isNaN c b then .cfloat_divide_by_nan else .cfloat_operand_is_nan
   | _ => .cfloat_operand_is_nan
 
-/-- operand class: `/` with a quiet-NaN numerator over a divisor that is neither zero nor NaN. -/
-def divQNaNNumeratorClass (c : Cfg) (op : Op) (a b : Nat) : Bool :=
-  op == .div && isQNaN c a && !(isZero c b) && !(isNaN c b)
-
 end CFloatSpec
 
 /-! ### fixpnt, integer — "division by zero" -/
